@@ -941,7 +941,7 @@ def gen_cases(ctx):
     nr_all = [None, 1, 2, 3, 5, 8]
 
     # (a) points: every shape first, then random
-    for i in range(ctx.budget(45, 320)):
+    for i in range(ctx.budget(120, 1200)):
         shape = SHAPES[i % len(SHAPES)] if i < 3 * len(SHAPES) else None
         geom = gen_geom(rnd, shape, big=big and rnd.random() < 0.5)
         vox = sorted(voxelise(geom['csg']))
@@ -956,7 +956,7 @@ def gen_cases(ctx):
 
     # (b1) TreeNeuron
     calls_all = ['in_volume', 'prune_by_volume', 'prune_inplace', 'in_volume_inplace', 'neuronlist']
-    for i in range(ctx.budget(50, 400)):
+    for i in range(ctx.budget(120, 1200)):
         geom = gen_geom(rnd, SHAPES[i % len(SHAPES)] if i < 2 * len(SHAPES) else None)
         vox = sorted(voxelise(geom['csg']))
         split = ['mixed', 'mixed', 'mixed', 'inside', 'outside'][i % 5]
@@ -965,7 +965,7 @@ def gen_cases(ctx):
         yield 'tree', {'geom': geom, 'nodes': nodes, 'conns': conns, 'calls': calls, 'n_rays': rnd.choice(nr_all)}
 
     # (b2) Dotprops
-    for i in range(ctx.budget(25, 200)):
+    for i in range(ctx.budget(60, 600)):
         geom = gen_geom(rnd)
         vox = sorted(voxelise(geom['csg']))
         pts = distinct_points(query_points2(geom, vox, rnd, rnd.randrange(1, 12 if q else 30)))
@@ -975,7 +975,7 @@ def gen_cases(ctx):
         yield 'dots', {'geom': geom, 'pts': pts, 'conns': conns, 'call': 'in_volume'}
 
     # (b3) MeshNeuron: small tetrahedra (and loose triangles) spread over the scene
-    for i in range(ctx.budget(30, 240)):
+    for i in range(ctx.budget(70, 700)):
         want_clean = i % 2 == 0
         geom = gen_geom(rnd, minscale=2 if want_clean else 1, pose_kind='full' if want_clean else None)
         vox = sorted(voxelise(geom['csg']))
@@ -1007,7 +1007,7 @@ def gen_cases(ctx):
         yield 'mesh', {'geom': geom, 'verts': verts, 'faces': faces, 'conns': conns, 'call': 'in_volume'}
 
     # (c) several volumes
-    for i in range(ctx.budget(30, 240)):
+    for i in range(ctx.budget(60, 600)):
         k = rnd.choice((1, 2, 2, 3, 4))
         pose = gen_pose(rnd)
         vols = []
@@ -1030,7 +1030,7 @@ def gen_cases(ctx):
         else:
             nodes, conns = gen_tree_on(rnd, g0, vox0, rnd.randrange(2, 12))
             yield 'multi', {'vols': named, 'how': how, 'target': 'tree', 'nodes': nodes, 'conns': conns}
-    for i in range(ctx.budget(12, 80)):
+    for i in range(ctx.budget(25, 200)):
         k = rnd.choice((1, 2, 3))
         pose = gen_pose(rnd)
         vols = []
@@ -1048,7 +1048,7 @@ def gen_cases(ctx):
     combos = [('tree', 'nodes'), ('tree', 'connectors'), ('dots', 'points'), ('dots', 'connectors'),
               ('mesh', 'vertices'), ('mesh', 'connectors')]
     vecs = [(1, 2, 2), (2, 3, 6), (1, 4, 8), (4, 4, 7), (2, 6, 9), (6, 6, 7), (0, 3, 4), (0, 0, 5), (0, 0, 0), (1, 1, 1), (2, 0, 1)]
-    for i in range(ctx.budget(60, 500)):
+    for i in range(ctx.budget(150, 1500)):
         kind, to = combos[i % len(combos)]
         n = rnd.randrange(1, 9 if q else 25)
         span = rnd.choice((6, 20, 1000))
